@@ -170,3 +170,38 @@ Qed.
 
 Lemma cors_preflight tb p : cors_serve tb "OPTIONS" p = CPreflight.
 Proof. reflexivity. Qed.
+
+(* ---- NewServer options ---- *)
+Definition to_wopt (o : sopt) : wopt :=
+  match o with SNotFound b => WNotFound b | SNotAllowed => WNotAllowed | SCors => WCors | SRouter => WRouter end.
+Definition want_conf (opts : list sopt) : sconf :=
+  let w := map to_wopt opts in mksconf (want_nf w) (want_na w) (want_cors w).
+
+Lemma fold_conf_norouter rest : ~ In SRouter rest -> forall c,
+  fold_left apply_sopt rest c =
+  mksconf (fold_left (fun b o => match o with WNotFound x => x | _ => b end) (map to_wopt rest) (s_nf c))
+          (fold_left (fun n o => match o with WNotAllowed => 1 | WCors => 2 | _ => n end)%nat (map to_wopt rest) (s_na c))
+          (s_cors c || want_cors (map to_wopt rest)).
+Proof.
+  induction rest as [|o r IH]; intros Hn c.
+  - simpl. destruct c. simpl. rewrite orb_false_r. reflexivity.
+  - cbn [fold_left map]. rewrite IH by (intro; apply Hn; right; assumption).
+    destruct o; cbn [apply_sopt to_wopt s_nf s_na s_cors want_cors existsb]; try reflexivity.
+    + rewrite orb_true_r. simpl. reflexivity.
+    + exfalso. apply Hn. left. reflexivity.
+Qed.
+
+Lemma fold_routers k : forall rest, fold_left apply_sopt (repeat SRouter k ++ rest) sconf0 = fold_left apply_sopt rest sconf0.
+Proof. induction k as [|k IH]; intro rest; [reflexivity|]. simpl. apply IH. Qed.
+
+Lemma want_routers k rest : want_conf (repeat SRouter k ++ rest) = want_conf rest.
+Proof.
+  unfold want_conf, want_nf, want_na, want_cors. induction k as [|k IH]; [reflexivity|]. simpl. exact IH.
+Qed.
+
+(* WithRouter first (or absent): the server is configured as asked *)
+Lemma server_conf_router_first k rest : ~ In SRouter rest ->
+  server_conf (repeat SRouter k ++ rest) = want_conf (repeat SRouter k ++ rest).
+Proof.
+  intro Hn. unfold server_conf. rewrite fold_routers, want_routers, (fold_conf_norouter rest Hn sconf0). reflexivity.
+Qed.
